@@ -4,5 +4,7 @@ set -e
 cd "$(dirname "$0")"
 coqc -Q ../../coq Ldlm -w -notation-overridden,-extraction-opaque-accessed ../../coq/Extract/SeqExtract.v >/dev/null
 rm -f SeqExtract.vo SeqExtract.glob SeqExtract.vos SeqExtract.vok .SeqExtract.aux
-ocamlfind ocamlopt -O2 -w -a -package str seqmodel.mli seqmodel.ml driver.ml -o seqdriver 2>/dev/null || \
-ocamlfind ocamlopt -w -a seqmodel.mli seqmodel.ml driver.ml -o seqdriver
+# the binary is replaced atomically: another check may be running the old one
+ocamlfind ocamlopt -O2 -w -a -package str seqmodel.mli seqmodel.ml driver.ml -o seqdriver.new 2>/dev/null || \
+ocamlfind ocamlopt -w -a seqmodel.mli seqmodel.ml driver.ml -o seqdriver.new
+mv -f seqdriver.new seqdriver
